@@ -241,7 +241,7 @@ def check_case(case):
 
 @st.composite
 def _model_cases(draw, tier):
-    spec = draw(G.specs(tier, max_books=2, wholecols=False, name_rate=2))
+    spec = draw(G.specs(tier, max_books=2, wholecols=False, name_rate=2, alias_rate=3))
     path = draw(st.sampled_from(['dict', 'dict', 'file']))
     ins = draw(O.overrides(spec, max_n=3, values=st.just(0.0), kinds=('cell', 'formula', 'name', 'name', 'rect', 'rect'), min_n=1))
     forms = [c for c in spec['cells'] if 'f' in c and 'arr' not in c]
